@@ -217,8 +217,11 @@ class GenModule(Elaboratable):
         obj = top.callable(ref, s.get("via_group", False))
         meth = top.methods[ref]
         kw = {}
-        if s.get("enable") is not None:
-            kw["enable_call"] = top.inp(s["enable"])
+        en = s.get("enable")
+        if isinstance(en, dict):  # a constant enable, written as C(v) / Python int / Python bool
+            kw["enable_call"] = {"C": C(en["const"], 1), "int": int(en["const"]), "bool": bool(en["const"])}[en["form"]]
+        elif en is not None:
+            kw["enable_call"] = top.inp(en)
         caller = Body.get()
         if md["iw"] > 0:
             argv = top.inp(s["arg"]) if isinstance(s["arg"], str) else C(int(s["arg"]), md["iw"])
